@@ -49,6 +49,26 @@ CLAIMED = {
             'buffer reads guarded by and bounded to the valid end; is_empty truth table; end-marker test; consumer alternation; reads into data-sized buffers repeat until full; an incomplete record leads back to a read in every chunk consumer (header included)', 'abstract interpretation (bit provenance) + guard analysis', '3 C20'),
 }
 
+
+# clauses added in round 7 (appended to the claimed text of the property)
+EXTRA = {
+    'C01': 'namespace snapshot written in the served order; the snapshot cut is serialised against applies (known finding R01z)',
+    'C03': 'delete_logs_from answers Ok only behind the strip request',
+    'C04': 'a short length-prefix peek is end-of-stream only when it is empty',
+    'C06': 'the snapshot install future is serialised with the applies that follow',
+    'C07': 'the live MCP key index is maintained like the rebuilt one',
+    'C08': 'a namespace record of an installed snapshot replaces the stored entry (constant-flag propagation into set_namespace)',
+    'C09': 'page arithmetic on request values is total (no checked +,-,* and no unguarded division on page number / size), every write entry point checks that the key survives its stored form, set_tmp_config never replaces an entry',
+    'C10': 'the listener notify loop has no early exit',
+    'C13': 'a queued change always supersedes the queued heartbeat copy of the same instance',
+    'C14': 'the cached owner range is kept only when it equals the freshly computed one',
+    'C15': 'a snapshot query is answered with the asking node\'s range too',
+    'C17': 'grants reach the matcher as written and the request path / method as sent',
+    'C18': 'the decoder of the stored user record always hands both namespace lists on',
+    'C19': 'every id answered by the sequence manager is a draw from the key buffer',
+    'C20': 'the carry-to-front helper moves every unread byte (interpretation over all (len, start) up to 7 with slice / iterator models)',
+}
+
 NOT_YET = {}
 
 
@@ -60,6 +80,8 @@ def main():
         pid = p['id']
         if pid in CLAIMED:
             what, tech, ref = CLAIMED[pid]
+            if pid in EXTRA:
+                what = what + '; ' + EXTRA[pid]
             checks.append({
                 'property_id': pid,
                 'quick_cmd': './check %s --tier quick' % pid,
